@@ -680,23 +680,48 @@ def member_of(w, t, o):
     return None
 
 
-def same(a, b):
-    """equal, and of the same class at every depth"""
+def _plain_default(f):
+    """the attribute's default as omit_if_default compares it (a plain default, or what a no-argument factory builds), or _NO"""
+    d = getattr(f, "default", _NO)
+    if isinstance(d, attrs.Factory):
+        return _NO if d.takes_self else d.factory()
+    if d is dataclasses.MISSING:
+        fac = getattr(f, "default_factory", dataclasses.MISSING)
+        return _NO if fac is dataclasses.MISSING else fac()
+    if d is attrs.NOTHING:
+        return _NO
+    return d
+
+
+_NO = object()
+
+
+def same(a, b, omit=False):
+    """equal, and of the same class at every depth.  With omit_if_default in force (`omit`), an attribute whose value
+    `==` its plain default is legitimately left out and comes back as the default itself (False == 0, 1 == True,
+    1.0 == 1): there the statement's `equals x` is Python equality, so only `==` with the default is demanded."""
     if a.__class__ is not b.__class__:
         return False
     if isinstance(a, (list, tuple, collections.deque)):
-        return len(a) == len(b) and all(same(x, y) for x, y in zip(a, b))
+        return len(a) == len(b) and all(same(x, y, omit) for x, y in zip(a, b))
     if isinstance(a, (set, frozenset)):
         return a == b and sorted(type(x).__name__ for x in a) == sorted(type(x).__name__ for x in b)
     if isinstance(a, dict):
         if a != b or a.keys() != b.keys():   # (Counter equality ignores zero counts)
             return False
         kb = {k: k for k in b}
-        return all(type(k) is type(kb[k]) and same(v, b[k]) for k, v in a.items())
-    if attrs.has(a.__class__):
-        return all(same(getattr(a, f.name), getattr(b, f.name)) for f in attrs.fields(a.__class__))
-    if dataclasses.is_dataclass(a):
-        return all(same(getattr(a, f.name), getattr(b, f.name)) for f in dataclasses.fields(a))
+        return all(type(k) is type(kb[k]) and same(v, b[k], omit) for k, v in a.items())
+    if attrs.has(a.__class__) or dataclasses.is_dataclass(a):
+        fs = attrs.fields(a.__class__) if attrs.has(a.__class__) else dataclasses.fields(a)
+        for f in fs:
+            va, vb = getattr(a, f.name), getattr(b, f.name)
+            if same(va, vb, omit):
+                continue
+            d = _plain_default(f)
+            if omit and d is not _NO and va == d and vb == d and vb.__class__ is d.__class__:
+                continue
+            return False
+        return True
     return a == b
 
 
@@ -930,7 +955,7 @@ def oracle(w, cfg, t, x_abs, res):
     """the property, on the implementation: -> None or (stage, text)"""
     if res["stage"] != "done":
         return (res["stage"], f"{res['stage']} raised {type(res['exc']).__name__}: {str(res['exc'])[:160]}")
-    if not same(res["x"], res["y"]):
+    if not same(res["x"], res["y"], omit=bool(res.get("cfg", {}).get("omit"))):
         return ("mismatch", f"loads(dumps(x)) = {res['y']!r:.200} differs from x = {res['x']!r:.200}")
     return None
 
